@@ -11,7 +11,7 @@ from xh._untraced import untraced, concrete
 
 TARGETS = {n: "_config_parser.ConfigParser._init_config_parser/_check_for_duplicate_pairs/_TableFormSection.check_for_duplicate_table_forms, "
               "_potential_form_registry._build_potential_forms/_build_table_forms, _eam_potential_builder.EAM_Potential_Builder_FS._density_to_potential_form_dict"
-           for n in ("pair_keys3", "form_signatures3", "pair_keys", "density_keys_fs", "embed_keys", "form_signatures", "table_form_headers", "form_kinds", "added_duplicates", "form_kinds_crowded")}
+           for n in ("pair_keys3", "form_signatures3", "pair_keys", "density_keys_fs", "embed_keys", "form_signatures", "table_form_headers", "form_kinds", "added_duplicates", "form_kinds_crowded", "added_twice")}
 
 SPECIES = "\n[Species]\nA.atomic_number : 1\nA.atomic_mass : 1.0\nB.atomic_number : 2\nB.atomic_mass : 2.0\n"
 HEAD = "[Tabulation]\ntarget : %s\ncutoff : 5.0\nnr : 6\ncutoff_rho : 5.0\nnrho : 6\n\n"
@@ -314,6 +314,68 @@ def added_outcome(kind, k1, k2):
     logging.disable(logging.NOTSET)
 
 
+def added_twice_outcome(kind, k1, k2):
+  """the file defines neither; both arrive as additions"""
+  from atsim.potentials.config import ConfigParser
+  from atsim.potentials.config._config_parser import ConfigParserOverrideTuple
+  if kind == "pair":
+    text, sec, v1, v2 = HEAD % "LAMMPS" + "[Pair]\nC-C : as.constant 9.0\n", "Pair", "as.constant 1.0", "as.constant 2.0"
+  elif kind == "form":
+    text, sec, v1, v2 = HEAD % "LAMMPS" + "[Pair]\nA-B : f 2.0\n", "Potential-Form", "1.0", "2.0"
+  else:
+    text, sec, v1, v2 = HEAD % "setfl_fs" + "[Pair]\nA-A : as.zero\n\n[EAM-Embed]\nA : as.zero\nB : as.zero\n\n[EAM-Density]\nB->B : as.zero\n" + SPECIES, "EAM-Density", "as.constant 1.0", "as.constant 2.0"
+  logging.disable(logging.CRITICAL)
+  try:
+    try:
+      cp = ConfigParser(io.StringIO(text), additional=[ConfigParserOverrideTuple(sec, k1, v1), ConfigParserOverrideTuple(sec, k2, v2)])
+      return "accepted", Configuration().read_from_parser(cp)
+    except ConfigurationException as e:
+      return "rejected", e
+    except Exception as e:  # noqa
+      return type(e).__name__, e
+  finally:
+    logging.disable(logging.NOTSET)
+
+
+def _added_twice_ok(kind, k1, k2):
+  st, x = added_twice_outcome(kind, k1, k2)
+  if _added_same(kind, k1, k2):
+    return st == "rejected"
+  return st in ("accepted", "rejected") if kind == "form" else st == "accepted"
+
+
+def added_twice(kind: int, k1: int, k2: int) -> bool:
+  """
+  pre: 0 <= kind < 3 and 0 <= k1 < 8 and 0 <= k2 < 8
+  post: _
+  """
+  name = concrete(["pair", "form", "density"][kind])
+  keys = dict(ADD_KINDS)[name]
+  a, b = concrete(keys[k1]), concrete(keys[k2])
+  with untraced():
+    if name == "form" and "f" not in (a.split("(")[0].strip(), b.split("(")[0].strip()):
+      return True
+    if name == "pair" and (pair_same(a, "C-C") or pair_same(b, "C-C")):
+      return True
+    if name == "density" and "B->B" in (norm(a), norm(b)):
+      return True      # (clashes with the file's own entry: added_duplicates' subject)
+    return _added_twice_ok(name, a, b)
+
+
+def _rp_added_twice(kind, k1, k2):
+  name = ["pair", "form", "density"][kind]
+  keys = dict(ADD_KINDS)[name]
+  a, b = keys[k1], keys[k2]
+  if name == "form" and "f" not in (a.split("(")[0].strip(), b.split("(")[0].strip()):
+    return False, "not a model", "agree"
+  if name == "density" and "B->B" in (norm(a), norm(b)):
+    return False, "clashes with the file's own entry", "agree"
+  if _added_twice_ok(name, a, b):
+    return False, "as specified", "agree"
+  st, x = added_twice_outcome(name, a, b)
+  return True, "%r and %r both arrive through `additional` / two --add-item options (the file defines neither): %s" % (a, b, st), "added-twice-%s-%s" % (name, st)
+
+
 def _added_ok(kind, k1, k2):
   st, x = added_outcome(kind, k1, k2)
   if _added_same(kind, k1, k2):
@@ -465,4 +527,4 @@ def _after_other_model(rp):
   return run
 
 
-REPLAY = dict((k_, _after_other_model(v_)) for k_, v_ in dict(added_duplicates=_rp_added, form_signatures3=_rp_forms3, pair_keys3=_rp_pairs3, pair_keys=_rp_pair, density_keys_fs=_rp_density, embed_keys=_rp_embed, form_signatures=_rp_forms, table_form_headers=_rp_headers, form_kinds=_rp_kinds, form_kinds_crowded=lambda name, second_kind, table_first: _rp_kinds(name, second_kind, table_first, True)).items())
+REPLAY = dict((k_, _after_other_model(v_)) for k_, v_ in dict(added_duplicates=_rp_added, added_twice=_rp_added_twice, form_signatures3=_rp_forms3, pair_keys3=_rp_pairs3, pair_keys=_rp_pair, density_keys_fs=_rp_density, embed_keys=_rp_embed, form_signatures=_rp_forms, table_form_headers=_rp_headers, form_kinds=_rp_kinds, form_kinds_crowded=lambda name, second_kind, table_first: _rp_kinds(name, second_kind, table_first, True)).items())
